@@ -28,6 +28,13 @@ def gen(tier, rng):
         sig = pyref.sign(p, sk, best)
         out.append(Case("signature", cp, [bytes(p.sig), best, sk, 0, b""], ["in_domain", "chain-sign"]))
         out.append(Case("verify", cp, [sig, best, pk], ["in_domain", "chain-verify"], aux=1))
+        # the same verification through the Keypair wrapper (model and crate)
+        if p.mldsa:
+            from props.c07 import mprime as _mp
+            s2 = pyref.sign(p, sk, _mp("pure", b"kp", best))
+            out.append(Case("kp_ml_verify", API_OF[cp], [sk + pk, best, s2, b"kp", 0], ["in_domain", "chain-verify", "keypair-wrapper"], aux=1))
+        else:
+            out.append(Case("kp_api_verify", API_OF[cp], [sk + pk, best, sig], ["in_domain", "chain-verify", "keypair-wrapper"], aux=1))
     return out
 
 
@@ -36,7 +43,7 @@ def nontrivial(c, out):
 
 
 def oracle(c, outs):
-    if c.fn == "verify" and outs[0] != c.aux:
+    if c.fn in ("verify", "kp_ml_verify", "kp_api_verify") and outs[0] != c.aux:
         return "verification of a genuine signature returned %d" % outs[0]
     if c.fn == "signature" and len(outs[0]) != Par(c.copy).sig:
         return "signature length %d" % len(outs[0])
@@ -147,6 +154,39 @@ def extra(rep, cov, tier, rng):
             if r is None or r[0] != 1:
                 rep.violation("the library rejects a signature made by an independent conforming signer (%s)" % cp, {"cases": []}, True)
         samples.append({"set": cp, "keys": len(keys), "message_lengths": lens[:8]})
+    # the same through the Keypair wrappers (Keypair::{sign, verify, prehash_sign, prehash_verify}), crate and model
+    kcalls, kexp = [], []
+    for cp in ALL:
+        p = Par(cp); api = API_OF[cp]
+        r = crate([("kp_generate", api, [bytes(rng.randrange(256) for _ in range(32))])], dev=True)[0]
+        sk, pk, kp = r
+        for ln in (0, 33, 120):
+            msg = bytes(rng.randrange(256) for _ in range(ln))
+            if p.mldsa:
+                for mode, ctx in ((0, None), (0, b"kp-ctx"), (1, b"kp-ctx"), (2, None)):
+                    c = ctx if ctx is not None else 0
+                    sg = crate([("kp_ml_sign", api, [kp, msg, c, mode])], dev=True)[0]
+                    kcalls.append(("kp_ml_verify", api, [kp, msg, sg[1], c, mode])); kexp.append(1)
+                    other = b"kp-ctX" if ctx else b"x"
+                    kcalls.append(("kp_ml_verify", api, [kp, msg, sg[1], other, mode])); kexp.append(0)
+                    kcalls.append(("kp_ml_verify", api, [kp, msg, sg[1], c, (mode + 1) % 3])); kexp.append(0)
+                    mp = mprime({0: "pure", 1: "sha256", 2: "sha512"}[mode], ctx, msg)
+                    if sg[0] != 1 or sg[1] != pyref.sign(p, sk, mp):
+                        rep.violation("Keypair::sign/prehash_sign (%s, mode %d, ctx %r) is not the specification's signature over M'" % (api, mode, ctx),
+                                      {"cases": [{"fn": "kp_ml_sign", "copy": api, "args": [fmt_arg(kp), fmt_arg(msg), fmt_arg(c), str(mode)]}]}, True)
+            else:
+                sg = crate([("kp_api_sign", api, [kp, msg])], dev=True)[0]
+                kcalls.append(("kp_api_verify", api, [kp, msg, sg[0]])); kexp.append(1)
+                kcalls.append(("kp_api_verify", api, [kp, msg + b"!", sg[0]])); kexp.append(0)
+                if sg[0] != pyref.sign(p, sk, msg):
+                    rep.violation("Keypair::sign (%s) is not the specification's signature" % api,
+                                  {"cases": [{"fn": "kp_api_sign", "copy": api, "args": [fmt_arg(kp), fmt_arg(msg)]}]}, True)
+    for cl, e, r in zip(kcalls, kexp, crate(kcalls, dev=True)):
+        n += 1
+        if r is None or r[0] != e:
+            rep.violation("Keypair wrapper %s/%s returned %s, expected %d" % (cl[0], cl[1], None if r is None else r[0], e),
+                          {"cases": [{"fn": cl[0], "copy": cl[1], "args": [fmt_arg(a) for a in cl[2]]}]}, True)
+    cov["keypair_wrapper_calls"] = len(kcalls)
     cov["sign_verify_roundtrips"] = n
     cov["mode_key_histogram"] = {"%s/%s" % k: v for k, v in hist.items()}
     cov["evaluations"] = cov.get("evaluations", 0) + n
